@@ -31,4 +31,4 @@ NOTE: the clean checkout may ALREADY violate the property in some ways (it has s
 
 For each variant N: start from a clean tree (`git -C {wt} checkout -- . `), make the change, run the full test suite and confirm it passes, run the demo and confirm it FAILS, save the change with `git -C {wt} diff -- src data > {wt}/_seed/patchN.diff`, then revert (`git -C {wt} checkout -- src data`) and confirm the demo PASSES on the clean tree. Finally leave the worktree clean (only the untracked `_seed/` directory with patchN.diff, demoN.py and a `meta.json`). meta.json: a list with one object per variant: {{"variant": N, "property": "{pid}", "summary": "...what was changed...", "needs_to_manifest": "...", "files": [...], "suite_passed": true, "demo_fails_with_patch": true, "demo_passes_clean": true}}.
 
-Do not commit anything. Your final message: one short paragraph per variant (what changed, what it needs to manifest), plus anything that did not work out.""")
+Do not commit anything and never use `git stash` (the stash is shared with other worktrees). Your final message: one short paragraph per variant (what changed, what it needs to manifest), plus anything that did not work out.""")
